@@ -35,6 +35,7 @@ class TCPServer:
         self.writer = writer
         self.send_lock = asyncio.Lock()
         self.state = state
+        self.finished = False  # Nothing more to be read or written
         self.idle_task = AsyncioSingleTask()
 
     def __await__(self) -> Generator[Any, None, None]:
@@ -70,6 +71,9 @@ class TCPServer:
                 await self.protocol.initiate()
                 await self.idle_task.restart(task_group, self._idle_timeout)
                 await self._read_data()
+                # The connection is over, the idle timer must not keep it
+                self.finished = True
+                await self.idle_task.stop()
         except OSError:
             pass
         finally:
@@ -82,11 +86,12 @@ class TCPServer:
                     self.writer.write(event.data)
                     await self.writer.drain()
                 except (ConnectionError, RuntimeError):
+                    self.finished = True
                     await self.protocol.handle(Closed())
         elif isinstance(event, Closed):
             await self._close()
         elif isinstance(event, Updated):
-            if event.idle:
+            if event.idle and not self.finished:
                 await self.idle_task.restart(self._task_group, self._idle_timeout)
             else:
                 await self.idle_task.stop()
